@@ -358,7 +358,7 @@ def escape_json_string(s: str, escaped: bool = False) -> str:
         replace('\f', r'\f').\
         replace('/', r'\/')
     return ''.join(
-        rf'\u{ord(x):04X}' if 1 <= ord(x) <= 31 or 127 <= ord(x) <= 159 else x
+        rf'\u{ord(x):04X}' if ord(x) <= 31 or 127 <= ord(x) <= 159 else x
         for x in s
     )
 
